@@ -240,7 +240,15 @@ func runC06tcp(line string) string {
 		}
 		return true
 	})
-	outs = append(outs, "end "+counts())
+	// the processor's own upstream connection statistics at quiescence (C20)
+	waitFor(2*time.Second, func() bool {
+		return spx.gauge("upstream.cx_active") == 0 && spx.counter("upstream.cx_total") == spx.counter("upstream.cx_destroy_total")
+	})
+	up := "ok"
+	if t, d, a := spx.counter("upstream.cx_total"), spx.counter("upstream.cx_destroy_total"), int64(spx.gauge("upstream.cx_active")); t != d || a != 0 {
+		up = fmt.Sprintf("BAD:total=%d,destroyed=%d,active=%d", t, d, a)
+	}
+	outs = append(outs, "end "+counts()+" upstream="+up)
 	return strings.Join(outs, " ; ")
 }
 
